@@ -46,6 +46,16 @@ D = {
  "C18-b": ("flow/task.go.tmpl: TaskSuccess emitted after the FallbackWith branch too", "instrumented task with FallbackWith returning an error"),
  "C19-a": ("loop takes the head of ready into a local before a worker accepts it", "a state report in the window between pick and hand-over"),
  "C19-b": ("state reports published from a detached goroutine", "a report still in flight when the loop exits (fast ticker / slow Emit)"),
+ "C01-c": ("compile.go: DependsOn de-duplicated by serial (third independent rediscovery of the task/predicate serial overlap)", "task gated by the k-th predicate that also consumes the task with file serial k; predicate slower than the provider chain"),
+ "C02-c": ("compile.go: providers looked up by types.TypeString instead of type identity", "provider and consumer spell an identical type differently ([]byte / []uint8, any / interface{}); provider listed first; concurrency >= 2"),
+ "C04-c": ("flow/task.go.tmpl: recovered value compared with the parked predicate panic (interface comparison)", "predicate without FallbackWith panics with a value of uncomparable type"),
+ "C05-c": ("loop waits for all workers before closing finishedc + donec capped at 64", "more than 64 workers; fail-fast; one failure while > 64 other jobs are in flight"),
+ "C07-c": ("parallel templates: shared End-hook closure with an unnamed result; recover assigns the outer err", "SliceEnd/MapEnd function panics after all elements succeeded"),
+ "C08-c": ("scheduler loop: job.err only recorded for non-sentinel errors (skipped job looks successful)", "ContinueOnError; chain A! <- B <- C with C enqueued after B's skip was processed"),
+ "C10-c": ("parallel/slice.go.tmpl: the index-less call helper lost the `err =` prefix", "index-less slice function returning an error; an element fails"),
+ "C12-c": ("templates: taskN.ran becomes a plain bool", "directive returns early while a task is still running; race detector; nothing else ordering the accesses"),
+ "C18-c": ("flow/parallel templates: early return when the context is already done, before FlowError", "instrumented directive called with an already cancelled context"),
+ "C19-c": ("scheduler loop: invalidated jobs finished in place without waiting--", "ContinueOnError; failing job with waiting dependents; emitter"),
  "C20-a": ("modifier flow_task template: recover assigns a local err", "modifier mode; a task panics"),
  "C20-b": ("modifier mode guesses unnamed import names from the path", "modifier mode; unnamed import of .../debug/v2 (package debug) colliding with a generated import"),
 }
